@@ -226,6 +226,13 @@ func (ex *Exec) callArgs(st *State, x *ast.CallExpr, ct *callTarget, k func(*Sta
 			}
 			vt := sig.Params().At(np - 1).Type()
 			st2 := st
+			if vsl, ok := types.Unalias(vt).Underlying().(*types.Slice); ok {
+				conv := make([]Val, len(rest))
+				for i, r := range rest {
+					conv[i] = ex.convTo(r, vsl.Elem())
+				}
+				rest = conv
+			}
 			sl := ex.sliceLiteral(st2, vt, rest)
 			vals = append(append([]Val{}, fixed...), sl)
 		}
